@@ -3,7 +3,7 @@
    sequence) pairs read from the FASTA files in database order (target before its decoy in concat mode).
    Reading the text file (line splitting, wrapping) and the csv layer of the map file are tied by correspondence. *)
 From PGF Require Import Base.Prelude Base.PyStr Base.StableSort Model.Digest Model.Grouping Model.Fasta
-  Proofs.FastaProofs Proofs.MapProofs.
+  Proofs.FastaProofs Proofs.MapProofs Proofs.FastaLoop.
 From Coq Require Import Permutation.
 
 (* for each peptide exactly the proteins whose digestion yields it, in database order *)
@@ -84,6 +84,19 @@ Theorem C09_map_file_roundtrip : forall m,
   read_rows (write_rows m) = m.
 Proof. exact map_file_roundtrip. Qed.
 Print Assumptions C09_map_file_roundtrip.
+
+(* reading a well-formed FASTA text (header lines ">" + header, sequence lines without trailing white space, none of them empty or
+   starting with ">") gives back the records in order: identifier = parse_id of the header, sequence = the concatenated sequence
+   lines, each record followed / replaced by its decoy according to the database mode *)
+Theorem C09_read_fasta_records : forall parse_id db special recs, Forall (rec_wf parse_id) recs ->
+  read_fasta parse_id db special (render_fasta recs) = flat_map (rec_out parse_id db special) recs.
+Proof. exact read_fasta_records. Qed.
+Print Assumptions C09_read_fasta_records.
+
+Theorem C09_read_fasta_target : forall parse_id special recs, Forall (rec_wf parse_id) recs ->
+  read_fasta parse_id DbTarget special (render_fasta recs) = map (fun r => (parse_id (f_hdr r), concat (f_chunks r))) recs.
+Proof. exact read_fasta_target. Qed.
+Print Assumptions C09_read_fasta_target.
 
 (* non-vacuity: two proteins sharing the tryptic peptide AAAAAAK; concat database *)
 Example C09_witness :
